@@ -134,7 +134,11 @@ func New(o Options) *Chain {
 		c.home, c.ownHome = d, true
 	}
 	db := cosmosdb.NewMemDB()
-	a := app.NewOsmosisApp(log.NewNopLogger(), db, nil, true, map[int64]bool{}, c.home, 0, sims.EmptyAppOptions{}, app.EmptyWasmOpts, baseapp.SetChainID(ChainID))
+	lg := log.NewNopLogger()
+	if os.Getenv("VERIF_APP_LOG") != "" {
+		lg = log.NewLogger(os.Stderr)
+	}
+	a := app.NewOsmosisApp(lg, db, nil, true, map[int64]bool{}, c.home, 0, sims.EmptyAppOptions{}, app.EmptyWasmOpts, baseapp.SetChainID(ChainID))
 	c.App = a
 	if o.StoreTrace != nil {
 		a.SetCommitMultiStoreTracer(o.StoreTrace)
